@@ -97,7 +97,7 @@ SetOfSeq(seq) == {seq[i] : i \in 1..Len(seq)}
 Loc0 == [ip |-> 1, ch |-> "D", item |-> 0, sub |-> SubItem(<<>>, 0), sok |-> TRUE, ret |-> "-",
          a |-> 0, via |-> "-", us |-> "-", uret |-> "-", cont |-> "-", k |-> 1, i |-> 1,
          snap |-> <<>>, st |-> <<>>, before |-> <<>>, effs |-> <<>>, needD |-> TRUE,
-         needN |-> TRUE, redAct |-> TRUE, calls |-> 0, got |-> FALSE, tid |-> 0, ph |-> "-"]
+         needN |-> TRUE, redAct |-> TRUE, calls |-> 0, got |-> FALSE, tid |-> 0, ph |-> "-", snapUnsub |-> {}]
 
 M0 == [received |-> 0, dropped |-> 0, chDropped |-> 0, reduced |-> 0, effIssued |-> 0,
        mwExecuted |-> 0, notified |-> 0, subNotified |-> 0, errors |-> 0]
@@ -105,26 +105,51 @@ M0 == [received |-> 0, dropped |-> 0, chDropped |-> 0, reduced |-> 0, effIssued 
 H0 == [before |-> {}, ret |-> {}, res |-> [a \in Acts |-> "-"], sawOpen |-> {}, recvd |-> <<>>,
        exitRecvd |-> 0, dropped |-> <<>>, red |-> <<>>, vetoed |-> {}, exp |-> <<>>,
        ntf |-> [s \in Subs |-> <<>>], unsubd |-> [s \in Subs |-> 0], unsubRet |-> {},
-       late |-> {}, regBefore |-> [s \in Subs |-> {}], stopRet |-> 0, stopBegun |-> FALSE,
+       late |-> {}, mustSee |-> [s \in Subs |-> {}], stopRet |-> 0, stopBegun |-> FALSE,
        accBeforeStop |-> {}, skipped |-> 0, cleared |-> FALSE, lateReg |-> {},
-       effOf |-> <<>>, reads |-> <<>>]
+       reads |-> <<>>, chain |-> [a \in Acts |-> <<>>], after |-> [a \in Acts |-> <<>>],
+       supp |-> {}, sent |-> <<>>, fwd |-> [s \in Subs |-> <<>>], got |-> [s \in Subs |-> <<>>],
+       registered |-> {}, redAfter |-> [r \in DOMAIN RedScript |-> {}], lateBad |-> {},
+       skippedAcc |-> 0, follow |-> {}]
+
+Chan0 == [c \in ChanIds |-> [q |-> <<>>, open |-> (c = "D"), alive |-> (c = "D"),
+                              rx |-> FALSE, held |-> FALSE]]
+Lk0 == [x \in LockIds |-> "-"]
+Pc0 == [t \in Threads |-> IF t \in Clients THEN "idle" ELSE IF t = "R" THEN "r.new" ELSE "none"]
+Lbl0 == [t |-> "-", ev |-> "init", d |-> 0, notes |-> <<>>, ans |-> "-"]
 
 Init ==
     /\ prog \in Programs
-    /\ chan = [c \in ChanIds |-> [q |-> <<>>, open |-> (c = "D"), alive |-> (c = "D"),
-                                  rx |-> FALSE, held |-> FALSE]]
-    /\ lk = [x \in LockIds |-> "-"]
+    /\ chan = Chan0
+    /\ lk = Lk0
     /\ state = <<>>
     /\ reducers = InitReducers
     /\ mws = InitMws
     /\ subs = <<>>
     /\ pool = "present"
     /\ tasks = <<>>
-    /\ pc = [t \in Threads |-> IF t \in Clients THEN "idle" ELSE IF t = "R" THEN "r.new" ELSE "none"]
+    /\ pc = Pc0
     /\ loc = [t \in Threads |-> Loc0]
     /\ m = M0
     /\ h = H0
-    /\ lbl = [t |-> "-", ev |-> "init", d |-> 0, notes |-> <<>>, ans |-> "-"]
+    /\ lbl = Lbl0
+
+(* a fresh store running program p (used by Trace.tla when a new run starts in the log) *)
+ResetTo(p) ==
+    /\ prog' = p
+    /\ chan' = Chan0
+    /\ lk' = Lk0
+    /\ state' = <<>>
+    /\ reducers' = InitReducers
+    /\ mws' = InitMws
+    /\ subs' = <<>>
+    /\ pool' = "present"
+    /\ tasks' = <<>>
+    /\ pc' = Pc0
+    /\ loc' = [t \in Threads |-> Loc0]
+    /\ m' = M0
+    /\ h' = H0
+    /\ lbl' = Lbl0
 
 -----------------------------------------------------------------------------
 (* The world record threaded through Micro/Run *)
@@ -179,8 +204,9 @@ SentPark(w, ok) ==
     Park([w EXCEPT !.loc[w.t].sok = ok], "sent", "send.end",
          [ch |-> L(w).ch, ok |-> IF ok THEN 1 ELSE 0])
 
-MSend(w) ==                  \* pc "send": leaving send.begin
-    LET ch == L(w).ch  x == SendItem(w)  q == w.chan[ch].q  room == Len(q) < ChanCap(ch) IN
+MSend(w0) ==                 \* pc "send": leaving send.begin
+    LET ch == L(w0).ch  x == SendItem(w0)  q == w0.chan[ch].q  room == Len(q) < ChanCap(ch)
+        w == IF ch = "D" /\ x > 0 THEN [w0 EXCEPT !.h.sent = Append(@, x)] ELSE w0 IN
     CASE ChanPol(ch) = "block" ->          \* channel.rs:56-61 sender.send(item) (guarded by CanLeave)
             SentPark([w EXCEPT !.chan[ch].q = Append(@, x)], TRUE)
       [] ChanPol(ch) = "oldest" ->         \* channel.rs:62-81
@@ -226,13 +252,18 @@ MChJoin(w) ==                \* pc "chjoin": h.join(), store_impl.rs:712 (guard:
 -----------------------------------------------------------------------------
 (* Pool submission: dispatch_thunk / dispatch_task, dispatcher.rs:42-73       *)
 
-Submit(w, kind, a) ==
+SubmitFrom(w, kind, a, src) ==
     IF w.pool = "present"
     THEN LET tid == Len(w.tasks) + 1 IN
-         AddNote([w EXCEPT !.tasks = Append(@, [kind |-> kind, a |-> a, st |-> "queued", runs |-> 0]),
+         IF tid > MaxTasks THEN Assert(FALSE, "MaxTasks is too small for this instance") ELSE
+         AddNote([w EXCEPT !.tasks = Append(@, [kind |-> kind, a |-> a, st |-> "queued", runs |-> 0, src |-> src]),
                            !.pc[WName(tid)] = "w.new", !.loc[WName(tid)].tid = tid],
                  N("submit", tid, <<>>))
-    ELSE AddNote([w EXCEPT !.h.skipped = @ + 1], N("skip", 0, <<>>))
+    ELSE AddNote([w EXCEPT !.h.skipped = @ + 1,
+                           !.h.skippedAcc = IF src \in w.h.accBeforeStop THEN @ + 1 ELSE @],
+                 N("skip", 0, <<>>))
+
+Submit(w, kind, a) == SubmitFrom(w, kind, a, 0)
 
 -----------------------------------------------------------------------------
 (* Middleware phases, store_impl.rs:297-327 / 376-405 / 446-475               *)
@@ -272,7 +303,8 @@ MMwRet(w) ==                 \* the callback returns w.ans
     CASE w.ans = "C" -> next
       [] w.ans = "D" ->
             IF ph = "before_reduce" THEN [next EXCEPT !.loc[w.t].redAct = FALSE]
-            ELSE IF ph = "before_dispatch" THEN [next EXCEPT !.loc[w.t].needN = FALSE]
+            ELSE IF ph = "before_dispatch" THEN [next EXCEPT !.loc[w.t].needN = FALSE,
+                                                             !.h.supp = @ \cup {L(w).a}]
             ELSE next
       [] w.ans = "B" -> Goto(w1, "mw.end")
       [] w.ans = "E" -> Park(w1, "mw.err", "cb", Cb(w1, "on_error", mw, <<>>, L(w).a, <<>>))
@@ -312,19 +344,23 @@ MRedRet(w) ==                \* store_impl.rs:335-351: thread the state, collect
     Goto([w EXCEPT !.loc[w.t].st = Append(@, <<r, a>>),
                    !.loc[w.t].effs = IF sc.eff.k = "none" THEN @ ELSE Append(@, sc.eff),
                    !.loc[w.t].needD = (sc.op = "D"),
+                   !.h.chain[a] = Append(@, r),
                    !.loc[w.t].i = @ + 1], "red.call")
 
 MRedEnd(w) ==                \* store_impl.rs:356
     Goto([w EXCEPT !.lk["reds"] = "-", !.m.reduced = @ + 1, !.h.red = Append(@, L(w).a)], "write")
 
 MWrite(w) ==                 \* store_impl.rs:157 (unconditional), then do_effect l.374
-    AddNote(Goto([w EXCEPT !.state = L(w).st, !.m.effIssued = @ + Len(L(w).effs)], "mwe.check"),
+    AddNote(Goto([w EXCEPT !.state = L(w).st, !.m.effIssued = @ + Len(L(w).effs),
+                          !.h.after[L(w).a] = L(w).st], "mwe.check"),
             N("wrote", 0, L(w).st))
 
 RECURSIVE SubmitAll(_, _)
 SubmitAll(w, effs) ==        \* store_impl.rs:408-429
     IF effs = <<>> THEN w
-    ELSE LET e == Head(effs) IN SubmitAll(Submit(w, e.k, e.a), Tail(effs))
+    ELSE LET e == Head(effs)
+             w1 == IF e.k = "act" THEN [w EXCEPT !.h.follow = @ \cup {<<L(w).a, e.a>>}] ELSE w IN
+         SubmitAll(SubmitFrom(w1, e.k, e.a, L(w).a), Tail(effs))
 
 MEffSubmit(w) == Goto(SubmitAll(w, L(w).effs), "ntf.begin")
 
@@ -336,7 +372,7 @@ MNtfSnapQ(w) ==              \* store_impl.rs:477
     IF L(w).needN THEN Park(w, "snap", "ntf.snap", 0) ELSE Goto(w, "done")
 
 MSnap(w) ==                  \* store_impl.rs:478 (guard: subscribers lock free)
-    Goto([w EXCEPT !.loc[w.t].snap = w.subs, !.loc[w.t].k = 1,
+    Goto([w EXCEPT !.loc[w.t].snap = w.subs, !.loc[w.t].k = 1, !.loc[w.t].snapUnsub = w.h.unsubRet,
                    !.h.exp = Append(@, SubItem(L(w).st, L(w).a))], "ntf.call")
 
 SelVal(st) == Len(SelectSeq(st, LAMBDA p : Kind[p[2]] = 1))    \* the scripted selector
@@ -345,24 +381,27 @@ MNtfCall(w) ==               \* store_impl.rs:479-481
     LET k == L(w).k  snap == L(w).snap IN
     IF k > Len(snap) THEN Goto([w EXCEPT !.m.subNotified = @ + Len(snap)], "done")
     ELSE LET s == snap[k]  item == SubItem(L(w).st, L(w).a)
-             late == IF s \in w.h.unsubRet THEN {s} ELSE {} IN
+             late == IF s \in w.h.unsubRet THEN {s} ELSE {}
+             bad == IF s \in L(w).snapUnsub THEN {s} ELSE {} IN
          CASE SubKind[s] = "direct" ->
-                Park([w EXCEPT !.h.ntf[s] = Append(@, item), !.h.late = @ \cup late],
+                Park([w EXCEPT !.h.ntf[s] = Append(@, item), !.h.late = @ \cup late,
+                               !.h.lateBad = @ \cup bad],
                      "ntf.ret", "cb", Cb(w, "notify", s, L(w).st, L(w).a, <<>>))
            [] SubKind[s] = "sel" ->       \* subscriber.rs:107-118: call back iff the selected value changed
                 LET v == SelVal(L(w).st)
                     prev == w.h.ntf[s]
                     changed == prev = <<>> \/ prev[Len(prev)].st # v IN
                 IF changed
-                THEN Park([w EXCEPT !.h.ntf[s] = Append(@, SubItem(v, L(w).a)), !.h.late = @ \cup late],
+                THEN Park([w EXCEPT !.h.ntf[s] = Append(@, SubItem(v, L(w).a)), !.h.late = @ \cup late,
+                                    !.h.lateBad = @ \cup bad],
                           "ntf.ret", "cb", Cb(w, "change", s, <<>>, L(w).a, <<>>) @@ [val |-> v])
                 ELSE Goto([w EXCEPT !.loc[w.t].k = k + 1], "ntf.call")
            [] SubKind[s] = "chan" ->      \* store_impl.rs:723-733: lock tx, forward if still there
                 IF w.chan[s].open
-                THEN StartSend([w EXCEPT !.lk[CtxLock(s)] = w.t], s, item, "fwd")
+                THEN StartSend([w EXCEPT !.lk[CtxLock(s)] = w.t, !.h.fwd[s] = Append(@, item)], s, item, "fwd")
                 ELSE Goto([w EXCEPT !.loc[w.t].k = k + 1], "ntf.call")
            [] SubKind[s] = "iter" ->      \* iterator.rs:18-28
-                StartSend(w, s, item, "itn")
+                StartSend([w EXCEPT !.h.fwd[s] = Append(@, item)], s, item, "itn")
 
 -----------------------------------------------------------------------------
 (* Continuations after send.end (pc "sent"), by L.ret                        *)
@@ -429,19 +468,19 @@ MIdle(w) ==
       [] o.op = "metrics" -> OpEnd(w, MetricsView(w))
       [] o.op = "add_sub" ->     \* store_impl.rs:225 (guard: subscribers lock free)
             OpEnd([w EXCEPT !.subs = Append(@, o.s),
-                            !.h.regBefore[o.s] = Acts \ w.h.sawOpen,
+                            !.h.mustSee[o.s] = Acts \ w.h.sawOpen, !.h.registered = @ \cup {o.s},
                             !.h.lateReg = IF w.h.cleared THEN @ \cup {o.s} ELSE @], "ok")
       [] o.op = "subscribed" ->  \* store_impl.rs:610-647: channel, thread, then add_subscriber
             OpEnd([w EXCEPT !.subs = Append(@, o.s),
                             !.chan[o.s].open = TRUE, !.chan[o.s].alive = TRUE,
                             !.pc[ChName(o.s)] = "ch.new",
-                            !.h.regBefore[o.s] = Acts \ w.h.sawOpen,
+                            !.h.mustSee[o.s] = Acts \ w.h.sawOpen, !.h.registered = @ \cup {o.s},
                             !.h.lateReg = IF w.h.cleared THEN @ \cup {o.s} ELSE @], "ok")
       [] o.op = "iter" ->        \* store_impl.rs:564-587
             OpEnd([w EXCEPT !.subs = Append(@, o.s),
                             !.chan[o.s].open = TRUE, !.chan[o.s].alive = TRUE,
                             !.chan[o.s].rx = TRUE, !.chan[o.s].held = TRUE,
-                            !.h.regBefore[o.s] = Acts \ w.h.sawOpen,
+                            !.h.mustSee[o.s] = Acts \ w.h.sawOpen, !.h.registered = @ \cup {o.s},
                             !.h.lateReg = IF w.h.cleared THEN @ \cup {o.s} ELSE @], "ok")
       [] o.op = "unsub" ->       \* (guard: subscribers lock free)
             MUnsubLocked([w EXCEPT !.lk["subs"] = t], o.s, "op")
@@ -449,7 +488,7 @@ MIdle(w) ==
             IF w.chan[o.s].rx
             THEN LET q == w.chan[o.s].q  x == Head(q)        \* (guard: an item is there)
                      w1 == [w EXCEPT !.chan[o.s].q = Tail(q)] IN
-                 IF x.a > 0 THEN OpEnd(w1, x)
+                 IF x.a > 0 THEN OpEnd([w1 EXCEPT !.h.got[o.s] = Append(@, x)], x)
                  ELSE Park([w1 EXCEPT !.loc[t].us = o.s], "iter.end", "iter.end", 0)
             ELSE OpEnd(w, NoneOf(o.s))
       [] o.op = "drop_iter" ->   \* iterator.rs:119-125 (guard: subscribers lock free, if still subscribed)
@@ -457,7 +496,8 @@ MIdle(w) ==
             THEN MUnsubLocked([w EXCEPT !.chan[o.s].rx = FALSE, !.chan[o.s].held = FALSE,
                                         !.lk["subs"] = t], o.s, "op")
             ELSE OpEnd([w EXCEPT !.chan[o.s].rx = FALSE], "ok")
-      [] o.op = "add_reducer" -> OpEnd([w EXCEPT !.reducers = Append(@, o.s)], "ok")  \* (guard: reducers lock free)
+      [] o.op = "add_reducer" -> OpEnd([w EXCEPT !.reducers = Append(@, o.s),
+                                                  !.h.redAfter[o.s] = Acts \ w.h.sawOpen], "ok")  \* (guard: reducers lock free)
       [] o.op = "add_mw" -> OpEnd([w EXCEPT !.mws = Append(@, o.s)], "ok")            \* (guard: middlewares lock free)
       [] o.op = "task" -> OpEnd(Submit(w, "task", 0), "ok")                            \* dispatcher.rs:60-73
       [] o.op = "thunk" -> OpEnd(Submit(w, "thunk", o.a), "ok")                        \* dispatcher.rs:42-58
